@@ -341,6 +341,15 @@ pub fn run(ctx: &Ctx, rep: &mut Report) {
                 let salt3 = rng.bytes32();
                 let id3 = w.view_token_id(&caller, &salt3);
                 w.prime_for(&id3);
+                // trial deployments (rolled back): if the service derives token addresses differently
+                // from the harness's prediction, this primes the addresses it really uses
+                for s in [salt2, salt3] {
+                    let ck = w.u.checkpoint();
+                    let gm = w.g.model.clone();
+                    let _ = w.do_deploy(&caller, &s, b"N", b"S", 6, 10, None, Auth::Only(vec![caller.clone()]));
+                    w.u.restore(&ck);
+                    w.g.model = gm;
+                }
                 let (its, gas) = (w.its.clone(), w.gas.addr.clone());
                 let mk_deploy = |s: [u8; 32]| -> Call {
                     let (i, c) = (its.clone(), caller.clone());
